@@ -218,6 +218,18 @@ def run(ctx, crate):
                     rv = d.val_local(0)
                     cmp_ok = rv == want
                     cmp_found = show(rv)[:120]
+                    if not cmp_ok and rv[0] == "phi" and all(m[0] == "const" and m[1] == "bool" for m in rv[2]):
+                        # `if a > b { .. true } else { false }`: true is returned exactly under the comparison
+                        trues = [bb_ for (bb_, v_) in S.def_table(d, 0) if v_ == ("const", "bool", True)]
+                        falses = [bb_ for (bb_, v_) in S.def_table(d, 0) if v_ == ("const", "bool", False)]
+                        if len(trues) == 1 and len(falses) == 1:
+                            raw_t = core.block_guard_atoms(d, trues[0]) or []
+                            raw_f = core.block_guard_atoms(d, falses[0]) or []
+                            at_t = [a for c_ in raw_t for a in c_ if a[0] in ("true", "false")]
+                            at_f = [a for c_ in raw_f for a in c_ if a[0] in ("true", "false")]
+                            cmp_ok = len(raw_t) == 1 and len(at_t) == 1 and S.norm_atom(at_t[0]) == S.norm_atom(("true", want)) and \
+                                len(raw_f) == 1 and len(at_f) == 1 and S.norm_atom(at_f[0]) == S.norm_atom(("false", want))
+                            cmp_found = "true under %s" % S.guard_str(S.block_guard(d, trues[0]))[-120:]
                 else:
                     ins = [s for s in ss if s.path.endswith("::insert") and s.args and s.args[0] == d.val_local(0)]
                     if len(ins) == 1:
